@@ -120,7 +120,61 @@ fn binding_is(an: &Analysis, name: &str, req: &Req, io_map: &Option<std::collect
     }
 }
 
+/// The same expression through its command line, in a layout variant (other separators, quoting,
+/// blanks left out next to punctuation): when that text is accepted, every resource must still be
+/// requested for the very pattern / destination that was written.
+fn text_path(tree: &E) -> Option<Verdict> {
+    if stable_hash(tree) % 4 != 1 {
+        return None;
+    }
+    let canon = crate::render::canonical(tree)?;
+    // only trees whose plain command line comes back as the same tree are compared
+    match catch(|| lipe_find_parser::parse(&canon)) {
+        Ok(Ok((_, x))) if from_ast(&x) == *tree => {}
+        _ => return None,
+    }
+    let h = stable_hash(&(tree, 11u8));
+    let choices: Vec<u16> = (0..60u32).map(|i| (h.rotate_left(i * 7 % 64) as u16) ^ (i as u16).wrapping_mul(40503)).collect();
+    let mut ch = crate::render::Stream::new(&choices, crate::render::ALL_LAYOUT | crate::render::Cat::Glue as u32);
+    let text = crate::render::variant(tree, &mut ch)?;
+    match catch(|| lipe_find_parser::parse(&text)) {
+        Err(p) => Some(Verdict::Fail(format!("parse panicked on {text:?}: {p}"))),
+        Ok(Err(_)) if ch.glued || ch.blank_after_bare => None,
+        Ok(Err(e)) => Some(Verdict::Fail(format!("{text:?} is a layout variant of {canon:?}, which is accepted, but it was rejected: {e}"))),
+        Ok(Ok((_, x))) => {
+            let got = from_ast(&x);
+            if got != *tree {
+                let (a, b) = (resources_of(tree), resources_of(&got));
+                if a != b {
+                    return Some(Verdict::Fail(format!("{text:?} is a layout variant of {canon:?}, but the resources requested differ: written {a:?}, parsed {b:?}")));
+                }
+            }
+            None
+        }
+    }
+}
+
+/// the (kind, string) requests of a tree in textual order
+fn resources_of(e: &E) -> Vec<String> {
+    e.leaves()
+        .iter()
+        .filter_map(|l| match l {
+            E::T(Tst::Name(p)) => Some(format!("name {p:?}")),
+            E::T(Tst::IName(p)) => Some(format!("iname {p:?}")),
+            E::T(Tst::Path(p)) => Some(format!("path {p:?}")),
+            E::T(Tst::IPath(p)) => Some(format!("ipath {p:?}")),
+            E::A(Act::FPrint(f)) => Some(format!("fprint {f:?}")),
+            E::A(Act::FPrint0(f)) => Some(format!("fprint0 {f:?}")),
+            E::A(Act::FPrintf(f, _)) => Some(format!("fprintf {f:?}")),
+            _ => None,
+        })
+        .collect()
+}
+
 pub fn judge(tree: &E) -> Verdict {
+    if let Some(v) = text_path(tree) {
+        return v;
+    }
     let comp = match policy::compile_tree(tree, None, "/") {
         CompileOutcome::Ok(c) => c,
         CompileOutcome::Err(_) => return Verdict::Skip("does not compile (C12)"),
@@ -306,7 +360,7 @@ pub fn run(ctx: &Ctx) -> Report {
     total.merge(st);
     Report {
         stats: total,
-        rule: "expressions with 0..300 matcher requests (-name/-iname/-path/-ipath over a pool with deliberate repeats, case-only twins, literal/pattern pairs) and printer requests (stdout and files x three terminators) in random first-occurrence order, in plain and framed mode. Oracle: scope analysis of the program read by the independent reader: every let* name bound once, every use resolves to an earlier let* binding, an enclosing lambda parameter or the runtime vocabulary; the generated references of the policy body, zipped in evaluation order with the tree's leaves, must resolve to that leaf's resource (matcher: (lambda (v) (fn? \"pattern\" v)) with fn chosen by glob/case and the decoded pattern; printer: port/terminator in plain mode, tag -> destination table in framed mode); identical requests share an identifier, different ones never do; plus a behavioural run on files matching one pattern each. Also pairs of patterns/destinations whose std-hasher values agree in the low 32 bits (birthday search at run time, six ways of feeding the hasher) or that weak fingerprints confuse. Non-trivial: both resource kinds present and at least one repeated request. Distinct: by tree.".into(),
+        rule: "expressions with 0..300 matcher requests (-name/-iname/-path/-ipath over a pool with deliberate repeats, case-only twins, literal/pattern pairs) and printer requests (stdout and files x three terminators) in random first-occurrence order, in plain and framed mode. Oracle: scope analysis of the program read by the independent reader: every let* name bound once, every use resolves to an earlier let* binding, an enclosing lambda parameter or the runtime vocabulary; the generated references of the policy body, zipped in evaluation order with the tree's leaves, must resolve to that leaf's resource (matcher: (lambda (v) (fn? \"pattern\" v)) with fn chosen by glob/case and the decoded pattern; printer: port/terminator in plain mode, tag -> destination table in framed mode); identical requests share an identifier, different ones never do; plus a behavioural run on files matching one pattern each. A quarter of the trees whose canonical command line parses back to the same tree are also rendered in a layout variant (separators, quoting, blanks left out next to punctuation): if that text is accepted, the requests it makes (kind and string, in order) must be the ones written. Also pairs of patterns/destinations whose std-hasher values agree in the low 32 bits (birthday search at run time, six ways of feeding the hasher) or that weak fingerprints confuse. Non-trivial: both resource kinds present and at least one repeated request. Distinct: by tree.".into(),
         assumptions: crate::checks::c02::runtime_assumptions(),
         exhaustive: false,
     }
